@@ -588,7 +588,7 @@ func c16Stretch(r *Rng, t smf.Track, target uint64) bool {
 func genC16(r *Rng, tier string, emit func(Case)) {
 	n := 2000
 	if tier == "thorough" {
-		n = 60000
+		n = 200000
 	}
 	for i := 0; i < n; i++ {
 		tags := map[string]bool{}
